@@ -192,6 +192,20 @@ class JSONSerializableTypeRegistry(metaclass=SingletonMeta):
             # a class that cannot be hashed (its metaclass defines __eq__) was never registered
             return None
 
+    def get_deserializer_of_type_named(
+        self, fully_qualified_class_name: str
+    ) -> Callable[[Dict[str, Any]], Any] | None:
+        """
+        Get the deserializer of the registered type that has the given full name.
+
+        :param fully_qualified_class_name: The name as `get_full_class_name` writes it.
+        :return: The deserializer function or None if no registered type has this name
+        """
+        for type_class, deserializer in self._deserializers.items():
+            if get_full_class_name(type_class) == fully_qualified_class_name:
+                return deserializer
+        return None
+
 
 class SubclassJSONSerializer:
     """
@@ -260,6 +274,15 @@ class SubclassJSONSerializer:
             # (SystemExit of a script, the Skipped of a module that skips itself under pytest: not Exception sub-classes)
             # the name of a class that is defined inside another class continues with the enclosing classes
             module = _resolve_enclosing_class(module_name)
+            registered_for_the_name = (
+                JSONSerializableTypeRegistry().get_deserializer_of_type_named(
+                    fully_qualified_class_name
+                )
+                if module is None
+                else None
+            )
+            if registered_for_the_name:
+                return registered_for_the_name(data, **kwargs)
             if module is None:
                 # a module that cannot be imported for whatever reason (not found, syntax error, an error while it runs,
                 # a script that ends with sys.exit)
@@ -272,6 +295,14 @@ class SubclassJSONSerializer:
         except BaseException as exc:
             # a module level __getattr__ (lazy imports) may fail with something else than AttributeError, also with
             # what an import can end with
+            # the full name of a registered type need not be a path that can be imported (builtins.mappingproxy)
+            registered_for_the_name = (
+                JSONSerializableTypeRegistry().get_deserializer_of_type_named(
+                    fully_qualified_class_name
+                )
+            )
+            if registered_for_the_name:
+                return registered_for_the_name(data, **kwargs)
             raise ClassNotFoundError(class_name, module_name) from exc
 
         if not isinstance(target_cls, type) or inspect.isabstract(target_cls):
